@@ -1,6 +1,6 @@
 """Rules centred on the solve root of PEP: R-DRAIN, R-PAIR, R-OBJ, R-OBJSENSE, R-ORDER, R-RET."""
 import ast
-from ..model import (AnalysisError, src, loc, call_name, dotted, qualname, norm_stmt, params_of, is_const, get_arg, iter_base)
+from ..model import (AnalysisError, clone, src, loc, call_name, dotted, qualname, norm_stmt, params_of, is_const, get_arg, iter_base)
 from .. import flow, effects
 from . import common
 
@@ -316,57 +316,235 @@ def r_obj(ctx):
 # ---------------------------------------------------------------------------------------------------
 # R-PAIR
 # ---------------------------------------------------------------------------------------------------
+class _Canon(ast.NodeTransformer):
+    def __init__(self, ren):
+        self.ren = ren
+
+    def visit_Name(self, node):
+        if node.id in self.ren:
+            return ast.Name(id=self.ren[node.id], ctx=ast.Load())
+        return node
+
+
+def _canon(e, ren):
+    return " ".join(src(_Canon(ren).visit(clone(e))).split())
+
+
+def _loop_entry(target, it, ren):
+    """canonical text of the iterated expression; the element variable(s) get positional names"""
+    whole, enum = iter_base(it)
+    text = _canon(whole, ren)
+    ren = dict(ren)
+    if enum and isinstance(target, ast.Tuple) and len(target.elts) == 2:
+        target = target.elts[1]
+    k = len([v for v in ren.values() if v.startswith("$")])
+    for n in ast.walk(target):
+        if isinstance(n, ast.Name):
+            ren[n.id] = "$%d" % k
+            k += 1
+    return text, ren
+
+
+def _trivial_guard(test, loops_below):
+    """`len(X) > 0`, `X`, `X != []` where X is iterated by a loop nested in the guard: the guard changes nothing"""
+    t = test
+    x = None
+    if isinstance(t, ast.Compare) and len(t.ops) == 1:
+        l, op, r = t.left, t.ops[0], t.comparators[0]
+        if isinstance(l, ast.Call) and call_name(l) == "len" and l.args and isinstance(r, ast.Constant) and r.value == 0 and isinstance(op, (ast.Gt, ast.NotEq)):
+            x = l.args[0]
+        elif isinstance(l, ast.Call) and call_name(l) == "len" and l.args and isinstance(r, ast.Constant) and r.value == 1 and isinstance(op, ast.GtE):
+            x = l.args[0]
+        elif isinstance(op, ast.NotEq) and ((isinstance(r, (ast.List, ast.Tuple)) and not r.elts) or (isinstance(r, ast.Call) and call_name(r) == "list" and not r.args)):
+            x = l
+    elif isinstance(t, (ast.Attribute, ast.Name)):
+        x = t
+    return x is not None and " ".join(src(x).split()) in loops_below
+
+
+def _context(stmt, root):
+    """(loops, guards, renaming) enclosing a statement of the solve root, outermost first"""
+    chain = []
+    n = stmt
+    while n is not root:
+        par = n._parent
+        if isinstance(par, ast.For) and n in par.body:
+            chain.append(("for", par))
+        elif isinstance(par, ast.While) and n in par.body:
+            chain.append(("while", par))
+        elif isinstance(par, ast.If):
+            chain.append(("if", par, n in par.body))
+        n = par
+    chain.reverse()
+    loops, guards, ren = [], [], {}
+    raw_loops = [" ".join(src(iter_base(c[1].iter)[0]).split()) for c in chain if c[0] == "for"]
+    for c in chain:
+        if c[0] == "for":
+            text, ren = _loop_entry(c[1].target, c[1].iter, ren)
+            loops.append(text)
+        elif c[0] == "while":
+            loops.append("while " + _canon(c[1].test, ren))
+        else:
+            if c[2] and _trivial_guard(c[1].test, raw_loops):
+                continue
+            if isinstance(c[1].test, ast.Name) and c[1].test.id == "verbose":
+                guards.append(("verbose", c[2]))
+                continue
+            guards.append((_canon(c[1].test, ren), c[2]))
+    return loops, guards, ren
+
+
+def _list_contributions(e, loops, guards, ren, fn, depth=0):
+    """Descriptors (loops, guards, element) of the members of a list-valued expression; None when the expression is not understood."""
+    if depth > 6:
+        return None
+    if isinstance(e, ast.BinOp) and isinstance(e.op, ast.Add):
+        l = _list_contributions(e.left, loops, guards, ren, fn, depth + 1)
+        r = _list_contributions(e.right, loops, guards, ren, fn, depth + 1)
+        return None if l is None or r is None else l + r
+    if isinstance(e, (ast.List, ast.Tuple)):
+        out = []
+        for x in e.elts:
+            if isinstance(x, ast.Starred):
+                sub = _list_contributions(x.value, loops, guards, ren, fn, depth + 1)
+                if sub is None:
+                    return None
+                out += sub
+            else:
+                out.append((tuple(loops), tuple(guards), _canon(x, ren)))
+        return out
+    if isinstance(e, ast.Call) and call_name(e) in ("list", "tuple") and isinstance(e.func, ast.Name):
+        if not e.args:
+            return []
+        return _list_contributions(e.args[0], loops, guards, ren, fn, depth + 1)
+    if isinstance(e, (ast.ListComp, ast.GeneratorExp)):
+        if isinstance(e.elt, (ast.List, ast.Tuple, ast.ListComp)):
+            return None
+        # a generator over `X + Y` is one over X followed by one over Y
+        alts = [(list(loops), list(guards), dict(ren))]
+        for g in e.generators:
+            nxt = []
+            whole, enum = iter_base(g.iter)
+            parts = []
+
+            def split(x):
+                if isinstance(x, ast.BinOp) and isinstance(x.op, ast.Add):
+                    split(x.left)
+                    split(x.right)
+                else:
+                    parts.append(x)
+            split(whole)
+            for lp, gd, rn in alts:
+                for part in parts:
+                    tgt = g.target.elts[1] if enum and isinstance(g.target, ast.Tuple) and len(g.target.elts) == 2 else g.target
+                    text, rn2 = _loop_entry(tgt, part, rn)
+                    gd2 = list(gd)
+                    for c in g.ifs:
+                        gd2.append((_canon(c, rn2), True))
+                    nxt.append((lp + [text], gd2, rn2))
+            alts = nxt
+        return [(tuple(lp), tuple(gd), _canon(e.elt, rn)) for lp, gd, rn in alts]
+    if isinstance(e, ast.Name) and e.id not in ren:
+        defs = [st for st in flow.stmts_of(fn, ast.Assign) if len(st.targets) == 1 and isinstance(st.targets[0], ast.Name) and st.targets[0].id == e.id]
+        if len(defs) == 1 and isinstance(defs[0].value, (ast.BinOp, ast.List, ast.ListComp, ast.Call)) and not (isinstance(defs[0].value, ast.Call) and call_name(defs[0].value) not in ("list", "tuple")):
+            return _list_contributions(defs[0].value, loops, guards, ren, fn, depth + 1)
+    if isinstance(e, (ast.Attribute, ast.Name)):
+        k = len([v for v in ren.values() if v.startswith("$")])
+        return [(tuple(loops) + (_canon(e, ren),), tuple(guards), "$%d" % k)]
+    return None
+
+
 def r_pair(ctx):
+    """What is recorded as sent is what is sent, per kind of object: the multiset of (iteration domain, guards, object) of the send calls
+    equals that of the contributions to the tracking list, whether they are per-object appends or bulk list expressions."""
     repo = ctx.repo
     root = common.solve_root(repo)
     sites = send_sites(repo, root)
     from .state import tracked_lists
-    tracked = tracked_lists(root)
+    tracked = tracked_lists(root, repo)
+    contrib = {t: [] for t in tracked}            # attr -> [(descriptor, node)]
+    not_understood = []
+    overwrite = {}
+    for n in ast.walk(root):
+        attr = expr = None
+        if isinstance(n, ast.Call) and call_name(n) in ("append", "extend") and isinstance(n.func, ast.Attribute) and len(n.args) == 1:
+            d = dotted(n.func.value)
+            if d and d.startswith("self.") and d.split(".", 1)[1] in tracked:
+                attr = d.split(".", 1)[1]
+                expr = ast.List(elts=[n.args[0]], ctx=ast.Load()) if call_name(n) == "append" else n.args[0]
+        elif isinstance(n, ast.Assign) and len(n.targets) == 1 and dotted(n.targets[0]) and dotted(n.targets[0]).startswith("self.") \
+                and dotted(n.targets[0]).split(".", 1)[1] in tracked:
+            attr, expr = dotted(n.targets[0]).split(".", 1)[1], n.value
+            if isinstance(expr, ast.BinOp) and isinstance(expr.op, ast.Add) and dotted(expr.left) == "self." + attr:
+                expr = expr.right
+        elif isinstance(n, ast.AugAssign) and isinstance(n.op, ast.Add) and dotted(n.target) and dotted(n.target).startswith("self.") \
+                and dotted(n.target).split(".", 1)[1] in tracked:
+            attr, expr = dotted(n.target).split(".", 1)[1], n.value
+        if attr is None:
+            continue
+        st = common.stmt_of(n)
+        loops, guards, ren = _context(st, root)
+        ds = _list_contributions(expr, loops, guards, ren, root)
+        if ds is None:
+            not_understood.append((attr, n))
+            continue
+        if isinstance(n, ast.Assign) and expr is n.value and flow.in_loop(st) is None:
+            # a plain rebinding outside any loop discards what was recorded before it
+            contrib[attr] = [c for c in contrib[attr] if c[1].lineno > n.lineno]
+            overwrite.setdefault(attr, []).append(n.lineno)
+        if any(n.lineno < l0 for l0 in overwrite.get(attr, [])):
+            continue
+        for d in ds:
+            contrib[attr].append([d, n, False])
     # which list follows which kind of send
-    kind_of = {}
+    send_desc = []
     for s0 in sites:
-        blk = flow.block_of(s0.stmt)[2]
-        for x in blk:
-            for c in ast.walk(x):
-                if isinstance(c, ast.Call) and call_name(c) == "append" and dotted(c.func.value) and dotted(c.func.value).startswith("self.") \
-                        and dotted(c.func.value).split(".", 1)[1] in tracked and s0.arg is not None and c.args and src(c.args[0]) == src(s0.arg):
-                    kind_of.setdefault(dotted(c.func.value).split(".", 1)[1], set()).add(s0.method)
+        loops, guards, ren = _context(s0.stmt, root)
+        send_desc.append((tuple(loops), tuple(guards), _canon(s0.arg, ren) if s0.arg is not None else None))
+    kind_of = {}
+    for t in tracked:
+        for d, n, _ in contrib[t]:
+            for s0, sd in zip(sites, send_desc):
+                if sd == d:
+                    kind_of.setdefault(t, set()).add(s0.method)
     lst_c = [t for t in tracked if kind_of.get(t) == {SEND_C}]
     lst_p = [t for t in tracked if kind_of.get(t) == {SEND_P}]
     if len(lst_c) != 1 or len(lst_p) != 1:
         raise AnalysisError("tracking lists of the solve root not resolved: %s" % sorted(tracked))
     lst_c, lst_p = lst_c[0], lst_p[0]
-    appends = [c for c in ast.walk(root) if isinstance(c, ast.Call) and call_name(c) == "append" and dotted(c.func.value) in ("self." + lst_c, "self." + lst_p)]
-    matched = set()
-    for s in sites:
-        want = "self." + (lst_c if s.method == SEND_C else lst_p)
-        blk = flow.block_of(s.stmt)[2]
-        idx = [i for i, x in enumerate(blk) if x is s.stmt][0]
+    for attr, n in not_understood:
+        raise AnalysisError("contribution `%s` to the tracking list %s is not a list expression the analysis understands" % (norm_stmt(common.stmt_of(n))[:80], attr))
+    for s, sd in zip(sites, send_desc):
+        attr = lst_c if s.method == SEND_C else lst_p
+        want = "self." + attr
         partner = None
-        # the tracking append sits in the same block, after the send or before it, with no other send in between
-        for seq in (blk[idx + 1:], list(reversed(blk[:idx]))):
-            for x in seq:
-                hit = [c for c in appends if common.stmt_of(c) is x and dotted(c.func.value) == want and id(c) not in matched]
-                if hit:
-                    partner = hit[0]
-                    break
-                if any(isinstance(n, ast.Call) and call_name(n) in (SEND_C, SEND_P) for n in ast.walk(x)):
-                    break
-            if partner is not None:
+        for c in contrib[attr]:
+            if not c[2] and c[0] == sd:
+                partner = c
                 break
-        ok = partner is not None and len(partner.args) == 1 and s.arg is not None and src(partner.args[0]) == src(s.arg)
-        if partner is not None:
-            matched.add(id(partner))
+        ok = partner is not None
+        if ok:
+            partner[2] = True
+        near = None
+        if not ok:
+            # same iteration domain but another object, or the same object over another domain
+            for c in contrib[attr]:
+                if not c[2] and (c[0][0] == sd[0] or c[0][2] == sd[2]):
+                    near = c
+                    break
         ctx.ob("R-PAIR", "PEP.%s::track %s" % (root.name, norm_stmt(s.stmt)[:60]), ok,
-               "the object sent is appended to %s in the same block" % want if ok else
-               ("`%s` is sent but %s: the certificate ranges over a different constraint set than the solver's"
-                % (src(s.arg), "not tracked in %s" % want if partner is None else "`%s` is tracked instead" % src(partner.args[0]))),
+               "the object sent is recorded in %s over the same iteration domain" % want if ok else
+               ("`%s` is sent (for %s%s) but %s: the certificate ranges over a different constraint set than the solver's"
+                % (src(s.arg), " / ".join(sd[0]) or "once", "".join(" if %s%s" % ("" if b else "not ", g) for g, b in sd[1]),
+                   "not tracked in %s" % want if near is None else
+                   "%s records `%s` for %s%s instead" % (want, near[0][2], " / ".join(near[0][0]) or "once", "".join(" if %s%s" % ("" if b else "not ", g) for g, b in near[0][1])))),
                loc(root, s.call))
-    for a in appends:
-        if id(a) not in matched:
-            ctx.ob("R-PAIR", "PEP.%s::untracked-send %s" % (root.name, norm_stmt(common.stmt_of(a))[:60]), False,
-                   "`%s` is recorded as sent but no send precedes it in its block: a stale multiplier enters the certificate" % src(a.args[0]),
-                   loc(root, a))
+    for attr in (lst_c, lst_p):
+        for d, n, used in contrib[attr]:
+            if not used:
+                ctx.ob("R-PAIR", "PEP.%s::untracked-send %s" % (root.name, norm_stmt(common.stmt_of(n))[:60]), False,
+                       "`%s` (for %s) is recorded as sent in self.%s but no send call covers it: a stale multiplier enters the certificate"
+                       % (d[2], " / ".join(d[0]) or "once", attr), loc(root, n))
     # the reconstruction iterates exactly these two lists
     rec = common.reconstruction_fn(repo)
     ctx.unit(qualname(rec))
